@@ -35,7 +35,7 @@ class HeaderSuite(Suite):
                    ("maxquant", 1, 0, 1, False), ("maxquant", 2, 0, 2, False),
                    ("diann", 1, 0, 0, False), ("diann", 2, 0, 0, False), ("diann", 3, 0, 0, False),
                    ("minimal", 2, 0, 0, False)]
-        reps = 1 if tier != "thorough" else 6
+        reps = 2 if tier != "thorough" else 8
         for _ in range(reps):
             for kind, e, s, t, skip in combos:
                 yield {"kind": kind, "n_exp": e, "silac": s, "tmt": t, "skip_lfq": skip, "seed": rng.randint(0, 10 ** 9)}
@@ -82,8 +82,11 @@ class HeaderSuite(Suite):
         if case["kind"] == "minimal":
             exps = []
         cin = cpair(cnat(kind), cbool(case["skip_lfq"]), clist(cstr(e) for e in exps), cnat(case["silac"]), cnat(case["tmt"]))
-        if "header" in out:
+        if "header" in out and self.py_property(case, out) is None:
             o = cok(clist(cstr(h) for h in out["header"]))
+        elif "header" in out:
+            # the monitor found the written table broken (ragged, truncated, not re-readable): never agrees with the model
+            o = craise("OtherError")
         else:
             o = craise("ValueError" if "ValueError" in (out.get("exception") or "") else "OtherError")
         return cpair(cin, o)
@@ -111,8 +114,10 @@ class HeaderSuite(Suite):
         if "readback" in out and out["readback"] != out["mem"]:
             return "read-back-differs-from-written-results"
         if case["kind"] == "diann" and "mem" in out:
-            ids = [r[0] for r in out["cells"]]
-            if ids != [m[0] for m in out["mem"]]:
+            # the DIA-NN layout writes UniProt accessions: same rows in the same order, one accession per identifier
+            ids = [r[0].split(";") for r in out["cells"]]
+            mem = [[p.split("|")[1] if p.count("|") >= 2 else p for p in m[0].split(";")] for m in out["mem"]]
+            if ids != mem:
                 return "read-back-differs-from-written-results"
         return None
 
